@@ -25,6 +25,10 @@ claimed = {
    text="Deductive proof over the real selection code: the two comparators handed to lo.MinBy (findBestEncodingForSignExtendable / ...NonSignExtendable) return true exactly as a shortest-valid-encoding order requires (sound and complete clauses against an independent size/validity spec), GetOutputSize equals the row's byte count, ImmediateValueFitsInSigned8Bits is exactly -128..127 on the first immediate operand, getImmediateSizeType has the signed 8/16/32 thresholds, isSignExtendable is the ALU group, registerToPushPopCode gives the +r register numbers.",
    note=TRUST + " lo.MinBy (left fold with the comparator) and the candidate set coming from the asmdb JSON table are assumed (A3, A7); opcode-length findings recorded.",
    design="DESIGN.md section 4, C18"),
+ "C19": dict(
+   text="Deductive proof of the control-flow part of the command-line contract on the real main and frontend.Exec: every process exit has code 0, 16, 17 or -1; fewer than two arguments exit 16; a source that cannot be stat'ed exits 17; an output file that cannot be opened exits 17 before anything is assembled; every failing exit prints a message; the destination is opened with O_CREATE|O_TRUNC; no exit path of Exec with a non-zero status has written the image, and the raw-binary path writes ctx.MachineCode exactly once. os.Exit, os.OpenFile, os.Stat, (*os.File).Write are modelled as ghost events (assumed library contracts).",
+   note=TRUST + " NOT decided: the Shift_JIS/UTF-8 clause (x/text decoders and the PEG parser are outside every contract); the WCOFF branch's single write is inside CoffFormat.Write, which is abstracted here with an inferred frame; pass1.TraverseAST is used through a trusted frame contract.",
+   design="DESIGN.md section 4, C19"),
  "C02": dict(
    text="Deductive proof, for all inputs, that the real calculateModRM (the only producer of mod/rm/SIB/displacement) emits bytes that an independent SDM decoder maps back to exactly the written base, index, scale and displacement at the address size implied by the registers, in both modes; obligations are generated from /repo's SSA on every run and discharged by z3/cvc5. Five recorded input regions where the current tree violates the clause are excluded as known findings and re-confirmed on every run.",
    note=TRUST + " Operand text -> MemoryInfo (PEG) is assumed (A2).",
